@@ -73,7 +73,7 @@ TRUSTED_BASE = [
 UNCOVERED = [
     "strict=True on parametrized sequences (whole-EOM-configuration comparison): table extracted, a small "
     "monitored family only",
-    "config_slm_mask replay (not in the op alphabet of the history generator)",
+    "config_slm_mask is replayed on the implementation only (drawn by the C18 generator, outside the scheduler model)",
     "the strict guarantee for EOM buffer parameters rests on the post-replay sample comparison (np.isclose), "
     "monitored, not proved",
     "samples with modulation=True",
@@ -860,8 +860,12 @@ def check_device_switch(rs: RealSeq, new_spec: dict, strict: bool, edits: list, 
                         close = eom_samples_close(seq, new)
                     except Exception:  # noqa: BLE001
                         close = False
+                extra = {}
+                if any(c.name == "config_slm_mask" for c in seq._calls + seq._to_build_calls):
+                    extra["slm_mask"] = True      # (the SLM-mask detuning is clipped at the DMM's bottom detunings)
                 res.fails.append(F("strict-identical", f"strict switch returned a different {what}: {d}",
-                                   param=pkey, what=what, cause=cause, param_class=pclass, eom_samples_close=close))
+                                   param=pkey, what=what, cause=cause, param_class=pclass, eom_samples_close=close,
+                                   **extra))
         if same_tl:
             if "samples" not in base_obs:
                 try:
@@ -1214,10 +1218,21 @@ def gen_sequence(rng: random.Random):
     rs = RealSeq(dev)
     g = HistoryGen(rng, spec, exact=rng.random() < 0.7, profile=profile, p_invalid=0.0)
     ops = []
-    for _ in range(rng.randrange(5, 30)):
+    n_ops = rng.randrange(5, 30)
+    # an SLM mask somewhere in the history (its DMM is clipped at the bottom detuning of the device's DMM)
+    slm_at = rng.randrange(0, n_ops) if spec.get("dmms") and rng.random() < 0.25 else None
+    for i in range(n_ops):
+        if i == slm_at:
+            op = {"k": "slm", "id": 0, "qs": sorted(rng.sample(range(spec["nq"]), rng.randrange(1, spec["nq"] + 1)))}
+            st, _ = rs.apply(op)
+            if st == "ok":
+                ops.append(op)
+            continue
         op = g.next_op()
         if op["k"] in ("dur", "est", "pref"):
             continue
+        if op["k"] in ("delay", "target", "add", "adddmm") and rng.random() < 0.2:
+            op["kw"] = True          # written with keyword arguments (on top of the generator's own share)
         st, _ = rs.apply(op)
         g.feedback(op, st, rs)
         if st == "ok":
